@@ -28,14 +28,25 @@ def features(b):
     """ordered pairs of event kinds with their slate/wallet relation: what a behaviour exercises"""
     f = set()
     ks = []
+    b_ = b
+    active = {}
     for e in b:
+        if e.get("ev") == "set_active":
+            active[e.get("w", "")] = e.get("label", "")
         k = e.get("ev", "") + ":" + str(e.get("stage", "")) + ("L" if e.get("late") else "") + ("T" if e.get("ttlb") else "")
+        # the account context matters (multi-account interplay): which account is active, which is named
+        k += "@" + active.get(e.get("w", ""), "") + (">" + e["src"] if e.get("src") else "") + (":" + e["tamper"] if e.get("tamper") else "")
         ks.append((k, e.get("sl", e.get("id", "")), e.get("w", "")))
     for i in range(len(ks)):
         f.add(("1", ks[i][0]))
         for j in range(i + 1, len(ks)):
             same = ks[i][1] == ks[j][1] and ks[i][1] != ""
             f.add((ks[i][0], ks[j][0], same, j == i + 1))
+            if same and ks[i][0] == ks[j][0]:
+                # a repeated step on the same slate: what happened in between matters
+                # (confirmed meanwhile? cancelled meanwhile?)
+                between = frozenset(b.get("ev") for b in b_[i + 1:j]) & {"mine", "refresh", "cancel", "finalize", "post", "fork", "scan"}
+                f.add(("rep", ks[i][0], tuple(sorted(between))))
     return f
 
 
